@@ -34,6 +34,7 @@ pub struct OpMix {
     pub damage_bucket: u32,
     pub foreign: u32,
     pub two_writers: u32,
+    pub switch_cache: u32,
 }
 
 impl OpMix {
@@ -59,6 +60,7 @@ impl OpMix {
         damage_bucket: 0,
         foreign: 0,
         two_writers: 0,
+        switch_cache: 0,
     };
 }
 
@@ -152,6 +154,8 @@ pub fn op(cfg: ProgCfg, nkeys: usize, nblobs: usize) -> BoxedStrategy<Op> {
     );
     add(m.remove, k().prop_map(|key| Op::Remove { key }).boxed());
     add(m.remove_hash, gen::addr_ref(nblobs).prop_map(|addr| Op::RemoveHash { addr }).boxed());
+    add(m.remove_hash.min(1), (gen::addr_ref(nblobs), any::<u16>()).prop_map(move |(addr, b)| Op::RemoveHashMulti { addr, also: pick(b, nblobs) }).boxed());
+    add(m.switch_cache, Just(Op::SwitchCache).boxed());
     add(m.remove_fully, (k(), prop::bool::weighted(0.8)).prop_map(|(key, fully)| Op::RemoveOpts { key, fully }).boxed());
     add(m.clear, Just(Op::Clear).boxed());
     add(m.idx_insert, (k(), idx_fields(nblobs)).prop_map(|(key, fields)| Op::IdxInsert { key, fields }).boxed());
@@ -279,7 +283,11 @@ pub fn remap_op(op: &mut Op, fk: &dyn Fn(usize) -> usize, fb: &dyn Fn(usize) -> 
         }
         Op::ReadHash { addr } | Op::Exists { addr } | Op::RemoveHash { addr } => remap_addr(addr, fb),
         Op::Stream { by, .. } | Op::Extract { by, .. } => remap_by(by, fk, fb),
-        Op::List | Op::Clear | Op::IdxLs | Op::Chdir { .. } | Op::TmpElsewhere | Op::RemoveTarget { .. } => {}
+        Op::List | Op::Clear | Op::IdxLs | Op::Chdir { .. } | Op::TmpElsewhere | Op::RemoveTarget { .. } | Op::SwitchCache => {}
+        Op::RemoveHashMulti { addr, also } => {
+            remap_addr(addr, fb);
+            *also = fb(*also);
+        }
         Op::PlantRecord { key, .. } => *key = fk(*key),
         Op::IdxInsert { key, fields } => {
             *key = fk(*key);
@@ -331,6 +339,12 @@ pub fn addr_universe(prog: &Program) -> Vec<AddrRef> {
             }
             Op::LinkTo(l) => push(AddrRef { algo: if l.oneshot { Algo::Sha256 } else { l.algo }, blob: l.blob }),
             Op::ReadHash { addr } | Op::Exists { addr } | Op::RemoveHash { addr } | Op::DamageContent { addr, .. } => push(*addr),
+            Op::RemoveHashMulti { addr, also } => {
+                push(*addr);
+                if let Some(w) = crate::exec::weaker_algo(addr.algo) {
+                    push(AddrRef { algo: w, blob: *also });
+                }
+            }
             Op::IdxInsert { fields, .. } => {
                 if let Some(a) = fields.integrity {
                     push(a)
